@@ -204,10 +204,10 @@ def prove(hyps, goal, timeout_ms=None, use_cvc5=True, both=False):
         return Result('sat', 'z3-%s' % z3.get_version_string(), time.time() - t0, model=m[1],
                       detail='countermodel at the finite shape %s (the general query was undecided)' % m[0])
     # last resort before giving up: quantifier instantiation is sensitive to the search order, and a loaded machine eats the
-    # wall-clock budget -- retry twice with other seeds and three times the budget (costs time only where a proof is being lost)
-    for seed in (11, 97):
+    # wall-clock budget -- retry once with another seed and twice the budget (costs time only where a proof is being lost)
+    for seed in (11,):
         s2 = Solver()
-        s2.set('timeout', 3 * (timeout_ms or Z3_TIMEOUT_MS))
+        s2.set('timeout', 2 * (timeout_ms or Z3_TIMEOUT_MS))
         s2.set('random_seed', seed)
         s2.set('smt.random_seed', seed)
         for h in hyps:
